@@ -54,7 +54,16 @@ func (s *Slice) Apply(inputs []tensor.Tensor) ([]tensor.Tensor, error) {
 		}
 	}
 
-	slices := s.constructSlices(starts, ends, steps, axes, len(data.Shape()))
+	if len(ends) != len(starts) || len(axes) != len(starts) || len(steps) != len(starts) {
+		return nil, ops.ErrInvalidInput("starts, ends, axes and steps must have the same length", s)
+	}
+
+	nDims := len(data.Shape())
+	if !ops.AllInRange(axes, -nDims, nDims-1) {
+		return nil, ops.ErrNotAllAxesInRange(nDims, nDims)
+	}
+
+	slices := s.constructSlices(starts, ends, steps, axes, nDims)
 
 	out, err := data.Slice(slices...)
 	if err != nil {
